@@ -746,10 +746,21 @@ func TestMessages(t *testing.T) {
 	}
 	defer out.Close()
 	n := 0
+	// C04: the three documents of every message are handed to the orchestrator, which parses them with independent parsers
+	var docs *vh.Writer
+	if dp := vh.Env("VERIF_DOCS", ""); dp != "" {
+		if docs, err = vh.NewWriter(dp); err != nil {
+			t.Fatal(err)
+		}
+		defer docs.Close()
+	}
 	check := func(id string, msg any, newPtr func() any) {
 		n++
 		var probs []string
 		b1 := ttlv.MarshalTTLV(msg)
+		if docs != nil && len(b1) < 60000 {
+			docs.Emit(map[string]any{"msg": id, "ttlv": fmt.Sprintf("%x", b1), "xml": string(ttlv.MarshalXML(msg)), "json": string(ttlv.MarshalJSON(msg))})
+		}
 		root, err := refwire.Parse(b1, true)
 		if err != nil {
 			probs = append(probs, fmt.Sprintf("ttlv:not-well-formed:%v", err))
